@@ -296,6 +296,21 @@ func (sv *negServer) serve(conn net.Conn) {
 			switch m["tls"] {
 			case "proceed":
 				w("<proceed xmlns='" + nsTLS + "'/>")
+				if m["hs"] == "alert" {
+					// an attacker in the middle: the handshake is broken off with a fatal alert, and the peer goes on
+					// talking XMPP in clear text on the raw connection. A client that took the failed upgrade for a
+					// success would now authenticate in the clear.
+					buf := make([]byte, 4096)
+					conn.SetReadDeadline(time.Now().Add(2 * time.Second))
+					if n, _ := conn.Read(buf); n == 0 {
+						return
+					}
+					conn.SetReadDeadline(time.Time{})
+					conn.Write([]byte{0x15, 0x03, 0x03, 0x00, 0x02, 0x02, 0x28}) // alert: fatal, handshake_failure
+					dec = xml.NewDecoder(conn)
+					tlsDone = true // the script goes on as if TLS were up (f2 / o2 for the restarted stream)
+					continue
+				}
 				if m["hs"] != "true" {
 					return // the server drops the connection instead of handshaking
 				}
@@ -1108,7 +1123,7 @@ var negAlt = map[string][]string{
 	"conn": {"dial", "header"},
 	"f1":   {"none"},
 	"tls":  {"failure", "other", "closed"},
-	"hs":   {"false"},
+	"hs":   {"false", "alert"},
 	"cert": {"wronghost", "untrusted", "expired"},
 	"o2":   {"false"},
 	"f2":   {"none", "0011"},
